@@ -46,6 +46,7 @@ pub fn run(ctx: &Ctx) -> CheckResult {
                 depth: if side { d_int - 2 } else { d_int },
                 label: "S_int+reset",
             });
+            spaces.push(Space { cfg, alphabet: with_reset(s_ops(&S_TINY)), depth: if side { d_rough - 2 } else { d_rough }, label: "S_tiny+reset" });
             spaces.push(Space {
                 cfg,
                 alphabet: s_ops(&S_ROUGH),
@@ -60,6 +61,7 @@ pub fn run(ctx: &Ctx) -> CheckResult {
 
     // (c) explicit-state fixpoints over the exact alphabet
     let mut bfs_rows = vec![];
+    let mut bfs_states: std::collections::HashMap<String, u64> = std::collections::HashMap::new();
     if !res.out.failed() {
         let mut jobs = vec![];
         for n in 1..=d_bfs_n {
@@ -82,6 +84,7 @@ pub fn run(ctx: &Ctx) -> CheckResult {
             let a = alphabet.len() as u64;
             // closed form for content+cursor machines: sum_{k<n} a^k + n a^n
             let closed: u64 = (0..n).map(|k| a.pow(k as u32)).sum::<u64>() + n * a.pow(n as u32);
+            bfs_states.insert(cfg.descr(), states);
             bfs_rows.push(json!({"subject": cfg.descr(), "states": states, "transitions": trans, "depth": depth, "fixpoint": fix, "concrete_states": concrete, "closed_form_content_cursor": closed}));
             if matches!(cfg.kind, Kind::Sma | Kind::Wma | Kind::Mad) && fix && !out.failed() {
                 res.require(concrete == closed, &format!("{}: BFS reached {} concrete states, closed form says {} (de-duplication unsound?)", cfg.descr(), concrete, closed));
@@ -92,6 +95,24 @@ pub fn run(ctx: &Ctx) -> CheckResult {
             res.absorb(out);
         }
     }
+
+    // stateright cross-check of the fixpoint graphs (independent checker, same model)
+    let mut xrows = vec![];
+    if !res.out.failed() {
+        let alphabet = s_ops(&S_INT);
+        let nmax = if th { 5 } else { 4 };
+        for n in 1..=nmax {
+            for k in [Kind::Sma, Kind::Wma, Kind::Mad, Kind::Min, Kind::Max] {
+                let cfg = Cfg::p1(k, n);
+                let x = crate::xcheck::run_indicator(&cfg, &alphabet, n, ctx.threads);
+                let mine = bfs_states.get(&cfg.descr()).copied().unwrap_or(0);
+                xrows.push(json!({"subject": cfg.descr(), "stateright_unique_states": x.unique_states, "seqmc_states": mine, "discoveries": x.discoveries}));
+                res.require(x.unique_states as u64 == mine, &format!("{}: stateright found {} unique states, seqmc BFS {}", cfg.descr(), x.unique_states, mine));
+                res.require(x.discoveries == 0, &format!("{}: stateright reports a discovery although seqmc found no violation", cfg.descr()));
+            }
+        }
+    }
+    res.extra.insert("stateright_crosscheck".into(), json!(xrows));
 
     // (d) deviation-bounded families for large periods
     let mut fam_runs = 0u64;
@@ -174,7 +195,7 @@ pub fn run(ctx: &Ctx) -> CheckResult {
 
     res.rule = "case = (configuration, operation history) replayed on a fresh real instance, output of the last op compared with the from-scratch double-double statistic of the last min(t,n) inputs since reset; distinct by construction (tree nodes / de-duplicated concrete states); non-trivial = oracle applicable and history longer than the window (at least one eviction)".into();
     res.bounds = format!(
-        "seq(S_int+reset, {}) and seq(S_rough, {}) for n=1..5 x {{SMA,WMA,SD,MAD,MIN,MAX,BB(mult 2; 0,0.5,3,-1 at depth-2)}}; BFS fixpoint over S_int for SMA/WMA/MAD/MIN/MAX n=1..{}; deviation-bounded families (4 base streams, k<=1{} deviations at every position) for periods {:?}",
+        "seq(S_int+reset, {}), seq(S_rough, {}) and seq(S_tiny(2^-60 unit)+reset, same depth) for n=1..5 x {{SMA,WMA,SD,MAD,MIN,MAX,BB(mult 2; 0,0.5,3,-1 at depth-2)}}; BFS fixpoint over S_int for SMA/WMA/MAD/MIN/MAX n=1..{}; deviation-bounded families (4 base streams, k<=1{} deviations at every position) for periods {:?}",
         d_int,
         d_rough,
         d_bfs_n,
